@@ -28,6 +28,14 @@ MUTANTS = [
      "mc/MC_C18.tla", "mc/MC_C18_quick.cfg", "anti-commutator of the jump-operator form without the factor 1/2"),
     ("QConv.tla", "    LET p(k) == (IdxCol(d, k)[1] - 1) * d + IdxCol(d, k)[2] IN", "    LET p(k) == (IdxRow(d, k)[1] - 1) * d + IdxRow(d, k)[2] IN",
      "mc/MC_C02.tla", "mc/MC_C02_quick.cfg", "column-major form equal to the row-major form"),
+    ("QTester.tla", "TDep(p, x) == [a \\in 1..Len(x) |-> IF a = 1 THEN x[a] ELSE RMul(RSub(ROne, p), x[a])]",
+     "TDep(p, x) == [a \\in 1..Len(x) |-> RMul(RSub(ROne, p), x[a])]",
+     "mc/MC_QTester.tla", "mc/MC_QTester_quick.cfg", "depolarising channel that also shrinks the identity component (not trace preserving)"),
+    ("QTester.tla", "ELSE [o \\in 1..4 |-> KronR(Eff(tp[1], ((o - 1) \\div 2) + 1), Eff(tp[2], ((o - 1) % 2) + 1))]",
+     "ELSE [o \\in 1..4 |-> KronR(Eff(tp[1], ((o - 1) \\div 2) + 1), Eff(tp[2], ((o - 1) \\div 2) + 1))]",
+     "mc/MC_QTester.tla", "mc/MC_QTester_quick.cfg", "product measurement whose second factor repeats the first outcome index"),
+    ("QObjLife.tla", "    /\\ obj' = [obj EXCEPT ![k].copy = obj[k].main]", "    /\\ obj' = [obj EXCEPT ![k].copy = [obj[k].main EXCEPT !.order = \"eq_ineq\"]]",
+     "mc/MC_ObjLife.tla", "mc/MC_ObjLife_quick.cfg", "copy() that resets the projection order"),
     # QPhysCheck's decision table is definitional (the reading of the property): only the binding can refute it,
     # so it has no spec-level mutant here.
 ]
@@ -43,15 +51,17 @@ def run(mod, cfg, specdir):
     finally:
         shutil.rmtree(meta, ignore_errors=True)
     out = p.stdout + p.stderr
-    m = re.search(r"Invariant (\S+) is violated", out) or re.search(r"(Temporal properties were violated)", out)
+    m = re.search(r"Invariant (\S+) is violated", out) or re.search(r"Action property (\S+) is violated", out) or \
+        re.search(r"(Temporal properties were violated)", out)
     ok = "No error has been found" in out
     return ok, (m.group(1) if m else None), out
 
 
 def main():
     alive = 0
+    only = sys.argv[1] if len(sys.argv) > 1 else None      # optional: only mutants of this spec file
     for f, old, new, mod, cfg, why in MUTANTS:
-        if old is None:
+        if old is None or (only and f != only):
             continue
         d = tempfile.mkdtemp(prefix="specmut")
         try:
